@@ -69,6 +69,53 @@ def ammoModel (fmt : String) (pre : Bool) (data : Bytes) : Option String :=
       some (renderRun (fmt != "raw") a)
   | _, _ => none
 
+/-- grpc/json: the file's scanner lines; `none` when a line comes near the scanner's buffer size or when
+limit / passes bookkeeping (C08's subject) is involved -/
+def grpcShape (kv : List (String × String)) (data : Bytes) : Option (List Bytes) :=
+  let passes := getS kv "passes"
+  let limit := getS kv "limit"
+  if !(passes == "" || passes == "1") || !(limit == "" || limit == "0") then none
+  else
+    let ls := rawLines data
+    if ls.any (fun l => l.length ≥ 60000) then none else some ls
+
+def grpcVerdict (kv : List (String × String)) (data : Bytes) (impl : String) : String :=
+  match grpcShape kv data with
+  | none => judge "grpc/json provider" none impl
+  | some ls =>
+    let blank (i : Nat) : Bool := (trimSpace (dropCR ((ls[i]?).getD []))).isEmpty
+    grpcJudge (getS kv "coe" == "1") ls.length blank impl
+
+/-! ### scenario weights, randString -/
+
+def weightsOf (s : String) : Option (List Int) :=
+  (s.splitOn ",").mapM fun w => if w == "-" then some 0 else w.toInt?
+
+def scnwModel (ws : List Int) : String :=
+  match spread true ws with
+  | .ok counts =>
+    let parts := (List.range counts.length).filterMap fun i =>
+      let c := (counts[i]?).getD 0
+      if c > 0 then some s!"s{i}:{c}" else none
+    "names=" ++ String.intercalate "," parts ++ " end=ok"
+  | .err _ => "end=ctor-err"
+  | .panic _ => "end=panic"
+  | .fatal _ => "end=fatal"
+
+def rsModel (via args : String) (nRaw : Bytes) : String :=
+  let parsed : Option Int :=
+    if args == "0" || (args == "1" && nRaw.isEmpty) then some 0 else atoi (trimSpace nRaw)
+  let r : Res Nat := match parsed with
+    | none => .err "parse"
+    | some n => randStringLen true n
+  match via, r with
+  | "vs", .ok _ => "end=ok"
+  | "vs", .err _ => "end=ctor-err"
+  | "vs", _ => "end=panic"
+  | _, .ok k => s!"ok len={k} inset=1"
+  | _, .err _ => "err"
+  | _, _ => "panic"
+
 /-! ### mp.GetMapValue data (the same family as harness/cmd/c13/helpers.go mpData) -/
 
 def natStr (n : Nat) : Bytes := str (toString n)
@@ -201,6 +248,28 @@ def model (kv : List (String × String)) : Option (Option String × String) := d
     match randInt true f t 0 with
     | .err _ => pure (some "err", "randInt")
     | _ => pure (none, "randInt")
+  | "scnw" =>
+    let ws ← weightsOf (getS kv "w")
+    pure (some (scnwModel ws), s!"{getS kv "kind"}/scenario provider (weights)")
+  | "rs" =>
+    let n ← bytesOfHex (getS kv "n")
+    pure (some (rsModel (getS kv "via") (getS kv "args") n), "randString")
+  | "scnnull" =>
+    let site : NullSite ← match getS kv "where" with
+      | "vs" => some .variableSource
+      | "post" => some .postprocessor
+      | "pre" => some .grpcPreprocessor
+      | "req" => some .request
+      | "scn" => some .scenario
+      | "tmpl" => some .templater
+      | "prep" => some .httpPreprocessor
+      | _ => none
+    let m := match nullItem true site with
+      | .ok () => "end=ok"
+      | .err _ => "end=ctor-err"
+      | .panic _ => "end=panic"
+      | .fatal _ => "end=fatal"
+    pure (some m, s!"{getS kv "kind"}/scenario provider (empty list item)")
   | "cli" =>
     let p ← cliShape (getS kv "pools")
     match massagePools true p with
@@ -220,16 +289,40 @@ def randIntVerdict (kv : List (String × String)) (impl : String) : Option Strin
   let off := wrap64 (v - lo)
   if 0 ≤ off ∧ off < d then some "ok" else some s!"fail:range:randInt returned {v} outside [{lo},{hi})"
 
+/-- the verdict keys of the scenario-weight, randString and empty-item cases carry the case kind: the defects found last are
+listed under these keys in findings/C13.json until their fixes land. A mutated scenario file (`scnraw`) that panics in
+`ExtractVariableStorage` is the empty-item defect too (the harness reports the panicking function). -/
+def kindKey (kv : List (String × String)) (impl verdict : String) : String :=
+  if verdict.startsWith "fail:" then
+    match getS kv "k" with
+    | "scnw" => "fail:scenario-weight-" ++ (verdict.drop 5).toString
+    | "rs" => "fail:randstring-" ++ (verdict.drop 5).toString
+    | "scnnull" => "fail:scenario-empty-item-" ++ (verdict.drop 5).toString
+    | "scnraw" =>
+      if containsSub impl "site=config.ExtractVariableStorage" then "fail:scenario-empty-item-" ++ (verdict.drop 5).toString
+      else verdict
+    | _ => verdict
+  else verdict
+
 def handle : Handler := fun input impl =>
   let kv := parseKV input
   match model kv with
   | none => ("-", "fail:driver:unparsable input")
   | some (m, kind) =>
+    let isGrpc := getS kv "k" == "ammo" && getS kv "fmt" == "grpcjson"
     let verdict := match randIntVerdict kv impl with
       | some v => v
-      | none => judge kind m impl
-    -- a case the harness refused to run (memory guard) has no observation to compare with
-    let m := if containsSub impl "oom-guard" then none else m
+      | none =>
+        if isGrpc then grpcVerdict kv ((bytesOfHex (getS kv "hex")).getD []) impl
+        else judge kind m impl
+    let verdict := kindKey kv impl verdict
+    -- a case the harness refused to run (memory guard) has no observation to compare with;
+    -- a Spec failure is the report (it carries the expected observation), not also a model/implementation difference
+    let failed := verdict.startsWith "fail:"
+    let verdict := if (crashVerdict kind impl).isSome then
+        verdict ++ (match m with | some x => s!" (expected: {x.take 80})" | none => "")
+      else verdict
+    let m := if containsSub impl "oom-guard" || failed then none else m
     (m.getD "-", verdict)
 
 end Pandora.Drv.C13
